@@ -152,7 +152,8 @@ func init() {
 			}
 			// long-term key derivation
 			if c.Shard == 0 {
-				for _, cr := range [][3]string{{"user", "realm", "pass"}, {"", "", ""}, {"a:b", "c", "d"}, {"マトリックス", "example.org", "The­MªtrⅨ"}} {
+				for _, cr := range [][3]string{{"user", "realm", "pass"}, {"", "", ""}, {"a:b", "c", "d"}, {"マトリックス", "example.org", "The­MªtrⅨ"},
+					{"100%secret", "realm", "pass"}, {"u", "r%%q", "p%d"}, {"%s", "%v", "%!"}, {"user", "realm", "trailing%"}} {
 					want := md5.Sum([]byte(cr[0] + ":" + cr[1] + ":" + cr[2])) //nolint:gosec
 					got := stun.NewLongTermIntegrity(cr[0], cr[1], cr[2])
 					c.Eval(1)
@@ -264,6 +265,24 @@ func init() {
 					}
 				})
 			})
+			// signing is refused once FINGERPRINT is present - wherever it is - and leaves the message alone
+			if c.Shard == 0 {
+				for _, lay := range [][]uint16{{0x8028}, {0x0006, 0x8028}, {0x8028, 0x8022}, {0x0006, 0x8028, 0x8022, 0x0014}, {0x8028, 0x8028}} {
+					m := new(stun.Message)
+					m.TransactionID = tid
+					m.WriteHeader()
+					for i, t := range lay {
+						m.Add(stun.AttrType(t), c04Value(t, 4, i))
+					}
+					before := append([]byte(nil), m.Raw...)
+					err := stun.MessageIntegrity(c04Keys[3]).AddTo(m)
+					c.Eval(1)
+					if !errors.Is(err, stun.ErrFingerprintBeforeIntegrity) || !bytes.Equal(m.Raw, before) {
+						c.Violation("signs-after-fingerprint", fmt.Sprintf("MessageIntegrity.AddTo on a message with attributes %04x returned %v and changed the message: %v", lay, err, !bytes.Equal(m.Raw, before)), c04Case{Hex: hex.EncodeToString(before), Key: hex.EncodeToString(c04Keys[3])})
+					}
+					c.Outcome("refused-after-fingerprint")
+				}
+			}
 			// one long chain: 8 attributes before, 4 after
 			if c.Shard == 0 {
 				m := new(stun.Message)
